@@ -55,8 +55,21 @@ def BOUNDS(tier):
     return {"plans": [[3, 3], [4, 2], [5, 1]]}
 
 
-def units(tier):
+def wide_programs():
     out = []
+    for n, subs in ((22, (0, 18, 19)), (12, (0, 8, 9))):
+        kids = []
+        for i in range(n):
+            if i in subs:
+                kids.append(["a", {"at": i % 2, "exit": (1 if i == subs[-1] else 0)}, [["m", {}], ["a", {}, []]]])
+            else:
+                kids.append(["m", {"mt": i % 2}])
+        out.append([["a", {}, kids]])
+    return out
+
+
+def units(tier):
+    out = [["wide", i] for i in range(len(wide_programs()))]
     done = {}
     for n_max, devs in BOUNDS(tier)["plans"]:
         for n in range(1, n_max + 1):
@@ -71,6 +84,9 @@ def units(tier):
 
 
 def cases(unit, tier):
+    if unit[0] == "wide":
+        yield wide_programs()[unit[1]]
+        return
     n, dlo, dhi, si = unit
     for i, sh in enumerate(progs.forests(n)):
         if i == si:
